@@ -209,6 +209,38 @@ def scan() -> List[Tuple[str, str, str, str, str]]:
     return uniq
 
 
+OPERATOR_NAMES = ("__add__", "__sub__", "__radd__", "__rsub__", "__iadd__", "__isub__", "__neg__", "__pos__", "__mul__", "__rmul__",
+                  "__truediv__", "__rtruediv__", "__array_ufunc__", "__array_priority__")
+
+
+def operator_table() -> List[Tuple[str, str, str]]:
+    """(class, operator method, what its body is) for every arithmetic special method defined in a class of _time.py:
+    `refuses` = the body (after the docstring) is the single statement `return NotImplemented`, `computes` = anything else"""
+    import warnings
+
+    with warnings.catch_warnings():
+        warnings.simplefilter("ignore")
+        tree = ast.parse((REPO / TIME).read_text())
+    out = []
+    for node in ast.walk(tree):
+        if not isinstance(node, ast.ClassDef):
+            continue
+        for ch in node.body:
+            name = None
+            if isinstance(ch, (ast.FunctionDef, ast.AsyncFunctionDef)) and ch.name in OPERATOR_NAMES:
+                body = list(ch.body)
+                if body and isinstance(body[0], ast.Expr) and isinstance(body[0].value, ast.Constant) and isinstance(body[0].value.value, str):
+                    body = body[1:]
+                refuses = len(body) == 1 and isinstance(body[0], ast.Return) and isinstance(body[0].value, ast.Name) \
+                    and body[0].value.id == "NotImplemented"
+                out.append((node.name, ch.name, "refuses" if refuses else "computes"))
+            elif isinstance(ch, ast.Assign):
+                for t in ch.targets:
+                    if isinstance(t, ast.Name) and t.id in OPERATOR_NAMES:
+                        out.append((node.name, t.id, "assigned " + ast.unparse(ch.value)))
+    return out
+
+
 HEADER = '''/- GENERATED by translator/extract_timepurity.py from the Python `ast` of the tree under test — do not edit.
 Every in-place operation of midgard/data/_time.py on an object the function did not create itself (see the translator). -/
 
@@ -239,6 +271,14 @@ def generate() -> Tuple[bool, dict]:
         lines.append("def inplace : List InPlace := [")
         lines.append(",\n".join("  ⟨" + ", ".join(lean_str(x) for x in e) + "⟩" for e in entries))
         lines.append("]")
+    try:
+        ops = operator_table()
+        lines.append("\n/-- every arithmetic special method defined in a class of `_time.py`: (class, method, refuses | computes | assigned …) -/")
+        lines.append("def operators : List (String × String × String) := [")
+        lines.append(",\n".join("  (" + ", ".join(lean_str(x) for x in o) + ")" for o in ops))
+        lines.append("]")
+    except (OSError, SyntaxError) as ex:
+        lines.append(f"-- NOT TRANSLATED (operators): {str(ex)[:300]}")
     lines.append("\nend Midgard.Generated.TimePurity\n")
     return write_if_changed("TimePurity.lean", "\n".join(lines)), {"entries": len(entries), "error": err}
 
